@@ -57,7 +57,7 @@ def run(chk: Check) -> None:
                kind='pos-persisted', expr='_pos')
     for name in ('_BlockStepper', '_IfStepper', '_WhileStepper'):
         c = prog.cls(f'workchains.{name}')
-        sf, lf = prog.view(c.methods.get('save_instance_state')), prog.view(c.methods.get('load_instance_state'))
+        sf, lf = prog.view(c.vmethods.get('save_instance_state')), prog.view(c.vmethods.get('load_instance_state'))
         chk.need(sf is not None and lf is not None, f'{name} lost its save/load_instance_state')
         sb, lb = saved_bindings(ctx, sf), loaded_bindings(ctx, lf)
         keys = [k for k, attrs in sb.items() if '_child_stepper' in attrs and '_child_stepper' in lb.get(k, set())]
@@ -72,20 +72,20 @@ def run(chk: Check) -> None:
         for f in (sf, lf):
             chk.ob('SYM-super-called', f, calls_super_on_all_paths(f), f'{name}.{f.name} calls super() on every path', kind='super-on-all-paths')
     fs = prog.cls('workchains._FunctionStepper')
-    sb = saved_bindings(ctx, prog.view(fs.methods['save_instance_state']))
-    lb = loaded_bindings(ctx, prog.view(fs.methods['load_instance_state']))
+    sb = saved_bindings(ctx, prog.view(fs.vmethods['save_instance_state']))
+    lb = loaded_bindings(ctx, prog.view(fs.vmethods['load_instance_state']))
     keys = [k for k, attrs in sb.items() if '_fn' in attrs and '_fn' in lb.get(k, set())]
-    chk.ob('SYM-stepper-function', prog.view(fs.methods['save_instance_state']), bool(keys), f'the step function is saved and restored under one key ({[str(k) for k in keys]})', kind='fn-key')
-    byname = any(norm(v).endswith('.__name__') for v in saved_keys_of(prog, prog.view(fs.methods['save_instance_state'])).values())
+    chk.ob('SYM-stepper-function', prog.view(fs.vmethods['save_instance_state']), bool(keys), f'the step function is saved and restored under one key ({[str(k) for k in keys]})', kind='fn-key')
+    byname = any(norm(v).endswith('.__name__') for v in saved_keys_of(prog, prog.view(fs.vmethods['save_instance_state'])).values())
     from ..rules import Resolver
-    lfn = prog.view(fs.methods['load_instance_state'])
+    lfn = prog.view(fs.vmethods['load_instance_state'])
     rl = Resolver(lfn)
     rebound = False
     for n in ast.walk(lfn.node):
         if isinstance(n, ast.Assign) and norm(n.targets[0]) == 'self._fn':
             v = rl.expand(n.value)
             rebound = isinstance(v, ast.Call) and norm(v.func) == 'getattr' and 'self._workchain' in norm(v.args[0])
-    chk.ob('SYM-stepper-function', prog.view(fs.methods['load_instance_state']), byname and rebound, 'the step function is saved by name and re-bound from the workchain class', kind='fn-by-name')
+    chk.ob('SYM-stepper-function', prog.view(fs.vmethods['load_instance_state']), byname and rebound, 'the step function is saved by name and re-bound from the workchain class', kind='fn-by-name')
     st = prog.func('workchains.Stepper.load_instance_state')
     ok = any(isinstance(n, ast.Assign) and norm(n.targets[0]) == 'self._workchain' and norm(n.value).endswith('.workchain') for n in ast.walk(st.node))
     chk.ob('SYM-stepper-function', st, ok, 'a loaded stepper is re-bound to the workchain named by the context', kind='workchain-rebound')
@@ -93,7 +93,7 @@ def run(chk: Check) -> None:
     # 2. create / recreate agreement per instruction
     for iname, sname in INSTRUCTIONS.items():
         c = prog.cls(f'workchains.{iname}')
-        cr, rc = prog.view(c.methods.get('create_stepper')), prog.view(c.methods.get('recreate_stepper'))
+        cr, rc = prog.view(c.vmethods.get('create_stepper')), prog.view(c.vmethods.get('recreate_stepper'))
         chk.need(cr is not None and rc is not None, f'{iname} lost create_stepper/recreate_stepper')
         made = [norm(x.func) for x in calls_in_func(cr) if isinstance(x.func, ast.Name) and x.func.id.endswith('Stepper')]
         remade = [norm(x.func.value) for x in calls_in_func(rc, 'recreate_from')] + [norm(x.func) for x in calls_in_func(rc) if isinstance(x.func, ast.Name) and x.func.id.endswith('Stepper')]
@@ -107,7 +107,7 @@ def run(chk: Check) -> None:
     for sname in ('_BlockStepper', '_IfStepper', '_WhileStepper'):
         c = prog.cls(f'workchains.{sname}')
         creates: Set[str] = set()
-        for f in c.methods.values():
+        for f in c.vmethods.values():
             for x in calls_in_func(f, 'create_stepper'):
                 r = receiver_text(x)
                 if f.name == '__init__':
@@ -117,7 +117,7 @@ def run(chk: Check) -> None:
                     if pos0:
                         r = r.replace('[0]', '[self._pos]')
                 creates.add(r)
-        lf = prog.view(c.methods['load_instance_state'])
+        lf = prog.view(c.vmethods['load_instance_state'])
         recreates = {receiver_text(x) for x in calls_in_func(lf, 'recreate_stepper')}
         chk.ob('SIB-child-selector', lf, bool(recreates) and recreates <= creates,
                f'{sname} restores its child from {sorted(recreates)}; the running stepper creates children from {sorted(creates)}: ' +
@@ -139,16 +139,16 @@ def run(chk: Check) -> None:
     supplied = context_kwargs(prog)
     need = {'_BlockStepper': ('block_instruction', '_Block'), '_IfStepper': ('if_instruction', '_If'), '_WhileStepper': ('while_instruction', '_While')}
     for sname, (attr, iname) in need.items():
-        lf = prog.cls(f'workchains.{sname}').methods['load_instance_state']
+        lf = prog.cls(f'workchains.{sname}').vmethods['load_instance_state']
         reads = [a for a, n, g in context_reads(lf)]
-        rc = prog.cls(f'workchains.{iname}').methods['recreate_stepper']
+        rc = prog.cls(f'workchains.{iname}').vmethods['recreate_stepper']
         kws = {k.arg: norm(k.value) for x in calls_in_func(rc, 'LoadSaveContext') for k in x.keywords}
         ok = all(r in kws for r in reads) and kws.get(attr) == 'self' and kws.get('workchain') == rc.params[2]
         chk.ob('SYM-load-context', rc, ok, f'{iname}.recreate_stepper supplies what {sname}.load_instance_state reads from the context (reads {reads}; supplies {kws})',
                kind='context-supplied')
         ctx_used = any(len(x.args) == 2 and norm(x.args[1]) == 'load_context' for x in calls_in_func(rc, 'recreate_from'))
         chk.ob('SYM-load-context', rc, ctx_used, 'that context is the one handed to recreate_from', kind='context-passed')
-    fc = prog.cls('workchains._FunctionCall').methods['recreate_stepper']
+    fc = prog.cls('workchains._FunctionCall').vmethods['recreate_stepper']
     kws = {k.arg: norm(k.value) for x in calls_in_func(fc, 'LoadSaveContext') for k in x.keywords}
     chk.ob('SYM-load-context', fc, kws.get('workchain') == fc.params[2], '_FunctionCall.recreate_stepper names the workchain in the context', kind='context-supplied')
     pl = prog.func('processes.Process.load_instance_state')
@@ -159,7 +159,7 @@ def run(chk: Check) -> None:
     # 4. continuations by name; the workchain's stepper and context
     for qual, key, attr in (('process_states.Created', 'RUN_FN', 'run_fn'), ('process_states.Running', 'RUN_FN', 'run_fn'), ('process_states.Waiting', 'DONE_CALLBACK', 'done_callback')):
         c = prog.cls(qual)
-        sf, lf = prog.view(c.methods['save_instance_state']), prog.view(c.methods['load_instance_state'])
+        sf, lf = prog.view(c.vmethods['save_instance_state']), prog.view(c.vmethods['load_instance_state'])
         kv = prog.fold(c.module, c.attrs[key], c)
         v = saved_keys_of(prog, sf).get(kv)
         from ..facts import Canon
@@ -172,25 +172,25 @@ def run(chk: Check) -> None:
         c = prog.cls(qual)
         chk.ob('SYM-continuation', qual, {'args', 'kwargs'} <= auto_persist_set(prog, c), f'{c.name} persists the continuation\'s arguments', kind='args-persisted')
     w = prog.cls('workchains.WorkChain')
-    sf, lf = prog.view(w.methods['save_instance_state']), prog.view(w.methods['load_instance_state'])
+    sf, lf = prog.view(w.vmethods['save_instance_state']), prog.view(w.vmethods['load_instance_state'])
     v = [val for k, val in saved_keys_of(prog, sf).items()]
     chk.ob('SYM-workchain', sf, any(norm(x) == 'self._stepper.save()' for x in v), 'the workchain saves its outline stepper', kind='stepper-saved')
     rec = [x for x in calls_in_func(lf, 'recreate_stepper')]
     ok = len(rec) == 1 and 'get_outline()' in receiver_text(rec[0]) and len(rec[0].args) == 2 and norm(rec[0].args[1]) == 'self'
     chk.ob('SYM-workchain', lf, ok, 'the stepper is recreated through the outline of the spec, for this workchain', kind='stepper-recreated')
-    oc = prog.view(w.methods['on_create'])
+    oc = prog.view(w.vmethods['on_create'])
     cr = [x for x in calls_in_func(oc, 'create_stepper')]
     chk.ob('SYM-workchain', oc, len(cr) == 1 and 'get_outline()' in receiver_text(cr[0]), 'a new workchain starts from the same outline', kind='stepper-created')
-    ds = prog.view(w.methods['_do_step'])
+    ds = prog.view(w.vmethods['_do_step'])
     conts = [x for x in calls_in_func(ds) if last_name(x) in ('Continue', 'Wait')]
     ok = bool(conts) and all(norm(x.args[0]) == 'self._do_step' for x in conts)
     chk.ob('SYM-workchain', ds, ok, 'the next outline step is requested as a named method (restorable by name)', kind='continuation-named')
     cm = prog.cls('mixins.ContextMixin')
-    sb = saved_bindings(ctx, prog.view(cm.methods['save_instance_state']))
-    lb = loaded_bindings(ctx, prog.view(cm.methods['load_instance_state']))
+    sb = saved_bindings(ctx, prog.view(cm.vmethods['save_instance_state']))
+    lb = loaded_bindings(ctx, prog.view(cm.vmethods['load_instance_state']))
     keys = [k for k, attrs in sb.items() if '_context' in attrs and '_context' in lb.get(k, set())]
-    chk.ob('SYM-workchain', prog.view(cm.methods['save_instance_state']), bool(keys), f'the context is saved and restored under one key ({[str(k) for k in keys]})', kind='context-key')
-    ld = prog.view(cm.methods['load_instance_state'])
+    chk.ob('SYM-workchain', prog.view(cm.vmethods['save_instance_state']), bool(keys), f'the context is saved and restored under one key ({[str(k) for k in keys]})', kind='context-key')
+    ld = prog.view(cm.vmethods['load_instance_state'])
     ok = any(isinstance(n, ast.Assign) and norm(n.targets[0]) == 'self._context' and isinstance(n.value, ast.Call) and norm(n.value.func) == 'AttributesDict'
              and any(k.arg is None for k in n.value.keywords) for n in ast.walk(ld.node))
     chk.ob('SYM-workchain', ld, ok, 'the context is rebuilt as a new AttributesDict from the saved mapping', kind='context-rebuilt')
